@@ -3,7 +3,8 @@
    executor oracle (pend = IsPodEvicted answers, okf = Evict results); nothing is assumed about
    the task tables, the lists or the oracle. *)
 From Coq Require Import List ZArith Bool.
-From Verif Require Import Lib.SortX C11.Model C11.Spec C11.Proofs C11.ModelEvict C11.SpecEvict C11.ProofsEvict C11.ModelHist C11.ProofsHist.
+From Verif Require Import Lib.ListX Lib.SortX Lib.SoftF64 C11.Model C11.Spec C11.Proofs C11.ModelEvict C11.SpecEvict C11.ProofsEvict C11.ProofsBE C11.ModelHist C11.ProofsHist.
+From Verif Require Gen.Gen_scores.
 From Coq Require Import Permutation Sorted.
 Import ListNotations.
 Open Scope Z_scope.
@@ -151,13 +152,89 @@ Theorem c11_victims_eligible_mem : forall c pods pend okf pre ev suf,
 Proof. exact (fun c pods pend okf => strategy_victims_eligible c pods _ pend okf (mem_ptasks_eligible c pods)). Qed.
 Print Assumptions c11_victims_eligible_mem.
 
-Theorem c11_victims_eligible_cpu : forall c pods pend okf pre ev suf,
-  fst (kill_and_evict pend okf (to_tasks (cpu_ptasks c pods))) = pre ++ ev :: suf ->
-  exists pt i, nth_error (cpu_ptasks c pods) (ev_rt ev) = Some pt
+Theorem c11_victims_eligible_cpu : forall c b pods pend okf pre ev suf,
+  fst (kill_and_evict pend okf (to_tasks (cpu_ptasks c b pods))) = pre ++ ev :: suf ->
+  exists pt i, nth_error (cpu_ptasks c b pods) (ev_rt ev) = Some pt
                /\ nth_error (pt_infos pt) (ev_k ev) = Some i
                /\ In (i_pod i) pods /\ elig_for c (pt_feature pt) (i_pod i) = true.
-Proof. exact (fun c pods pend okf => strategy_victims_eligible c pods _ pend okf (cpu_ptasks_eligible c pods)). Qed.
+Proof. exact (fun c b pods pend okf => strategy_victims_eligible c pods _ pend okf (cpu_ptasks_eligible c b pods)). Qed.
 Print Assumptions c11_victims_eligible_cpu.
+
+(* ---------- BECPUEvict: target by BE CPU satisfaction, credit by containers + sidecars ---------- *)
+(* the batch-cpu / mid-cpu a pod holds: the positive requests of its regular containers and of its
+   sidecars (init containers with restartPolicy Always); ordinary init containers do not count *)
+Theorem c11_held_by_containers : forall ex p sel cs k,
+  p_req1 (with_ctrs ex p) = ext_req k_req1 (ctrs_of p ex)
+  /\ 0 <= ext_req sel cs
+  /\ (k_kind k = 2 -> ext_req sel (cs ++ [k]) = ext_req sel cs + Z.max 0 (sel k))
+  /\ (k_kind k = 0 -> ext_req sel (cs ++ [k]) = ext_req sel cs + Z.max 0 (sel k))
+  /\ (k_kind k = 1 -> ext_req sel (cs ++ [k]) = ext_req sel cs).
+Proof.
+  exact (fun ex p sel cs k =>
+    conj (with_ctrs_req1 ex p) (conj (ext_req_nonneg sel cs) (conj (ext_req_sidecar sel cs k)
+      (conj (ext_req_regular sel cs k) (ext_req_init sel cs k))))).
+Qed.
+Print Assumptions c11_held_by_containers.
+
+(* the computed target is nothing or one positive amount of batch-cpu *)
+Theorem c11_becpu_target_shape : forall c b,
+  be_need c b = [] \/ exists v, be_need c b = [(1, v)] /\ 0 < v.
+Proof. exact be_need_shape. Qed.
+Print Assumptions c11_becpu_target_shape.
+
+(* a target exists only behind every gate: enough samples in the window (the GENERATED
+   isAvgQueryResultValid), BE usage high enough against a positive limit on average and now, a
+   positive BE request; and it never exceeds what the window average alone asks for *)
+Theorem c11_becpu_target_gated : forall c b v,
+  be_need c b = [(1, v)] ->
+  let avg_req := mvalue b (b_avg_req b) in
+  let avg_lim := be_limit c b (mvalue b (b_avg_limit b)) in
+  let cur_lim := be_limit c b (mvalue b (b_cur_limit b)) in
+  be_data_ok b = true
+  /\ be_usage_high b (mvalue b (b_avg_usage b)) avg_lim = true
+  /\ be_usage_high b (mvalue b (b_cur_usage b)) cur_lim = true
+  /\ 0 < fst avg_lim /\ 0 < fst cur_lim /\ 0 < fst avg_req
+  /\ 0 < v <= be_sat_release b avg_req avg_lim.
+Proof. exact be_need_gated. Qed.
+Print Assumptions c11_becpu_target_gated.
+
+Theorem c11_becpu_data_gate : forall b,
+  be_data_ok b = true <->
+  Z.quot (be_window b) 3
+  <= Z.min (mcount (b_avg_usage b)) (Z.min (mcount (b_avg_req b)) (mcount (b_avg_limit b)))
+     * b_interval b.
+Proof. exact be_data_ok_iff. Qed.
+Print Assumptions c11_becpu_data_gate.
+
+(* end to end through cpuEvict with BECPUEvict's task present (target v), for every executor:
+   what the loop has released under (request, batch-cpu) is exactly the batch-cpu held by the
+   counted pods (evicted or found terminating, of ANY task), read from the pod descriptions ... *)
+Theorem c11_becpu_credit : forall c b pods v,
+  c_cap c <=? 0 = false -> feat c 0 && be_cfg_ok b = true -> be_need c b = [(1, v)] ->
+  forall tr, released_of (to_tasks (cpu_ptasks c b pods)) tr 1 1
+             = sumZ (map (fun ev => if counted ev then held_batch (cpu_ptasks c b pods) ev else 0) tr).
+Proof. exact be_released. Qed.
+Print Assumptions c11_becpu_credit.
+
+(* ... every BECPUEvict call / hit happens while that is below the target ... *)
+Theorem c11_becpu_needed : forall c b pods v,
+  c_cap c <=? 0 = false -> feat c 0 && be_cfg_ok b = true -> be_need c b = [(1, v)] ->
+  forall pend okf pre ev suf,
+  fst (kill_and_evict pend okf (to_tasks (cpu_ptasks c b pods))) = pre ++ ev :: suf ->
+  ev_rt ev = 0%nat ->
+  sumZ (map (fun ev => if counted ev then held_batch (cpu_ptasks c b pods) ev else 0) pre) < v.
+Proof. exact be_needed. Qed.
+Print Assumptions c11_becpu_needed.
+
+(* ... and none after it is covered *)
+Theorem c11_becpu_stops : forall c b pods v,
+  c_cap c <=? 0 = false -> feat c 0 && be_cfg_ok b = true -> be_need c b = [(1, v)] ->
+  forall pend okf pre suf,
+  fst (kill_and_evict pend okf (to_tasks (cpu_ptasks c b pods))) = pre ++ suf ->
+  v <= sumZ (map (fun ev => if counted ev then held_batch (cpu_ptasks c b pods) ev else 0) pre) ->
+  forall ev, In ev suf -> ev_rt ev <> 0%nat.
+Proof. exact be_stops. Qed.
+Print Assumptions c11_becpu_stops.
 
 (* ---------- histories of rounds against the stateful executor (Evictor cache) ---------- *)
 (* for every sequence of task tables and every pattern of rejected eviction calls the model's
@@ -209,3 +286,21 @@ Example c11_nonvacuous :
   tr_of (fun _ p => p =? 2) (fun n _ => negb (Nat.eqb n 0)) ts
   = [EEvict 0 0 0 false; EPending 0 1; EEvict 0 0 2 true].
 Proof. vm_compute. reflexivity. Qed.
+
+(* non-vacuity of the BECPUEvict theorems: request 8000, real limit 2800 (satisfaction 35 % <= 40 %),
+   upper bound 80 % -> target 3600; the first BE pod holds 1000 + 3000 (sidecar) *)
+Example c11_becpu_nonvacuous :
+  let m v := mkBm true v 4 in
+  let b := mkBecfg false true 40 true 80 false 0 false 0 1 0
+                   (m 2700) (m 8000) (m 2800) (m 2700) (m 8000) (m 2800) in
+  let c := mkEcfg true 16000 false 0 false 0 false 0 false 0 false 0 false 0 false 0
+                  [16000; 8000; -1] [true; false; false] in
+  let pod id prio used r1 := mkEpod id true true (-1) false prio false 0 false 0 true used 0 r1 0 in
+  let pods := map (with_ctrs [mkCtr 2 2 0 3000 0])
+                  [pod 1 5002 600 2000; pod 2 5000 1500 1000; pod 3 5001 600 2000] in
+  be_need c b = [(1, 3600)]
+  /\ map (fun pt => map (fun i => p_id (i_pod i)) (pt_infos pt)) (cpu_ptasks c b pods) = [[2; 3; 1]]
+  /\ fst (kill_and_evict (fun _ _ => false) (fun _ _ => true) (to_tasks (cpu_ptasks c b pods)))
+     = [EEvict 0 0 0 true].
+Proof. vm_compute. repeat split. Qed.
+
